@@ -820,9 +820,15 @@ func writeEvidence(prop, tier string, seed uint64, plan Plan, a *agg, wallS, sim
 			},
 		},
 	}
-	os.MkdirAll(filepath.Join(verifDir, "evidence"), 0755)
+	evDir := filepath.Join(verifDir, "evidence")
+	if os.Getenv("VERIF_REPO") != "" {
+		// a run against another tree (sensitivity evaluation of a seeded change) must not
+		// replace the evidence of the run against /repo
+		evDir = filepath.Join(verifDir, "evidence", "other-tree")
+	}
+	os.MkdirAll(evDir, 0755)
 	data, _ := json.MarshalIndent(ev, "", " ")
-	if err := os.WriteFile(filepath.Join(verifDir, "evidence", prop+".json"), data, 0644); err != nil {
+	if err := os.WriteFile(filepath.Join(evDir, prop+".json"), data, 0644); err != nil {
 		infra("write evidence: %v", err)
 	}
 }
